@@ -474,6 +474,8 @@ def extract_function(fn):
     ck = csig.rindex(")")
     c_params = param_names(csig[cj + 1:ck])
     extra = set(fn.get("extra_params", [])) | {"self"}
+    # parameters the contract signature has but older source text may lack (the body then does not use them): tolerated so that the contract can be run against both forms
+    extra |= set(n_ for n_ in fn.get("optional_params", []) if n_ not in src_params)
     c_core = [p for p in c_params if p not in extra]
     src_params = [p for p in src_params if p not in set(fn.get("dropped_params", []))]   # e.g. allocator arguments (recorded in the log)
     if fn.get("dropped_params"):
